@@ -15,7 +15,7 @@
    rounding is the final IEEE division, which is correctly rounded.  `prop` compares bit-for-bit
    with PrimFloat's own IEEE division of the exactly converted reference sum and count. *)
 From Coq Require Import String.
-From Coq Require Import List ZArith QArith Qabs Bool Floats Uint63.
+From Coq Require Import List ZArith QArith Qabs Qround Bool Floats Uint63.
 From IB Require Import Util.J Combiners.Lawful Combiners.Basic Combiners.TopK Combiners.Distinct.
 Import ListNotations.
 Open Scope Z_scope.
@@ -330,6 +330,191 @@ Definition agree_expr (cid : Z) (k : nat) (den : Z) (e : aexpr Z) (o : J) : bool
     | _ => false end
   else false.
 
+
+(* ------------------------------------------------------------------ non-finite floats ("fsweep")
+   FOR THE CORRESPONDENCE ONLY: the theorems are over Z / Q (finite values).  Here the sum model
+   is extended to the extended reals the way IEEE addition behaves on the generated inputs (finite
+   values are small multiples of 1/2, so finite sums are exact and never overflow):
+   NaN is absorbing, (+inf) + (-inf) = NaN, otherwise an infinity absorbs finite values; the count
+   counts every sample.  The sign of a zero result is not modelled (Rust's `Iterator::sum::<f64>`
+   starts from -0.0, `0.0 + x` from +0.0, so AverageF64's lifted and unlifted accumulators of a
+   group of -0.0 values differ in the sign of zero only); zeros are compared by value.
+   Min/Max over OrdF64 (f64::total_cmp) reuse the Z models through an order-preserving key.
+   value codes: 100 NaN, 101 +inf, 102 -inf, 103 -0.0, otherwise c stands for the double c/2. *)
+Inductive xr : Type := XNaN | XPInf | XNInf | XFin (q : Q).
+Definition xadd (a b : xr) : xr :=
+  match a, b with
+  | XNaN, _ | _, XNaN => XNaN
+  | XPInf, XNInf | XNInf, XPInf => XNaN
+  | XPInf, _ | _, XPInf => XPInf
+  | XNInf, _ | _, XNInf => XNInf
+  | XFin p, XFin q => XFin (p + q)
+  end.
+(* Sum<f64>: same shape as Basic.sum_combiner *)
+Definition xsum_combiner : combiner xr xr xr := {|
+  c_create := XFin 0;
+  c_add    := xadd;
+  c_merge  := xadd;
+  c_finish := fun a => a;
+  c_build  := fun vs => fold_left xadd vs (XFin 0)
+|}.
+(* AverageF64: same shape as Basic.average_combiner *)
+Definition xavg_finish (a : xr * Z) : xr :=
+  if snd a =? 0 then XFin 0
+  else match fst a with XFin q => XFin (q / inject_Z (snd a)) | x => x end.
+Definition xavg_combiner : combiner xr (xr * Z) xr := {|
+  c_create := (XFin 0, 0);
+  c_add    := fun a v => (xadd (fst a) v, snd a + 1);
+  c_merge  := fun a b => (xadd (fst a) (fst b), snd a + snd b);
+  c_finish := xavg_finish;
+  c_build  := fun vs => (fold_left xadd vs (XFin 0), Z.of_nat (length vs))
+|}.
+Definition code_xr (c : Z) : xr :=
+  if c =? 100 then XNaN else if c =? 101 then XPInf else if c =? 102 then XNInf
+  else if c =? 103 then XFin 0 else XFin (Qmake c 2).
+(* total_cmp order: -inf < negative < -0.0 < +0.0 < positive < +inf < NaN; strictly monotone *)
+Definition code_key (c : Z) : Z :=
+  if c =? 100 then 1001 else if c =? 101 then 1000 else if c =? 102 then -1000
+  else if c =? 103 then -1 else 2 * c.
+
+Definition jstr_is (o : J) (t : string) : bool :=
+  match o with JS s => String.eqb s t | _ => false end.
+(* observed float outcome against an extended real; finite: nearest double (mean) or exact (sum) *)
+Definition xr_matches (nearest : bool) (x : xr) (o : J) : bool :=
+  match x with
+  | XNaN => jstr_is o "nan"
+  | XPInf => jstr_is o "pinf"
+  | XNInf => jstr_is o "ninf"
+  | XFin q =>
+      match o with
+      | JF f => if nearest then nearest_double f q
+                else match float_to_Q f with Some fq => Qeq_bool fq q | None => false end
+      | _ => false
+      end
+  end.
+(* observed Min/Max outcome as a key: Some None = finish panicked *)
+Definition obs_key (o : J) : option (option Z) :=
+  match o with
+  | JN => Some None
+  | JS s => if String.eqb s "nan" then Some (Some 1001)
+            else if String.eqb s "pinf" then Some (Some 1000)
+            else if String.eqb s "ninf" then Some (Some (-1000)) else None
+  | JF f =>
+      match Prim2SF f with
+      | S754_zero true => Some (Some (-1))
+      | S754_zero false => Some (Some 0)
+      | _ => match float_to_Q f with
+             | Some q => let z := Qfloor (q * 4) in
+                         if Qeq_bool (inject_Z z) (q * 4) then Some (Some z) else None
+             | None => None
+             end
+      end
+  | _ => None
+  end.
+
+(* rows of an fsweep case: 0 AverageF64, 1 Sum<f64>, 2 Min<OrdF64>, 3 Max<OrdF64> *)
+Definition f_agree (row : nat) (t : mtree Z) (o : J) : bool :=
+  match row with
+  | 0%nat => xr_matches true (c_finish xavg_combiner (meval xavg_combiner (map_tree code_xr t))) o
+  | 1%nat => xr_matches false (c_finish xsum_combiner (meval xsum_combiner (map_tree code_xr t))) o
+  | 2%nat => match obs_key o with
+             | Some ok => ozeqb ok (c_finish min_combiner (meval min_combiner (map_tree code_key t)))
+             | None => false end
+  | _ => match obs_key o with
+         | Some ok => ozeqb ok (c_finish max_combiner (meval max_combiner (map_tree code_key t)))
+         | None => false end
+  end.
+
+(* independent reference on the whole multiset of codes *)
+Definition f_prop (row : nat) (codes : list Z) (o : J) : bool :=
+  let has c := existsb (Z.eqb c) codes in
+  let fin := ref_sum (map (fun c => if c =? 103 then 0 else c)
+                          (filter (fun c => negb ((100 <=? c) && (c <=? 102))) codes)) in
+  let n := Z.of_nat (length codes) in
+  match row with
+  | 0%nat | 1%nat =>
+      if has 100 || (has 101 && has 102) then jstr_is o "nan"
+      else if has 101 then (match codes with [] => false | _ => jstr_is o "pinf" end)
+      else if has 102 then jstr_is o "ninf"
+      else match o with
+           | JF f =>
+               match row, codes with
+               | 0%nat, [] => PrimFloat.eqb f PrimFloat.zero
+               | 0%nat, _ => PrimFloat.eqb f (PrimFloat.div (float_of_Z fin) (float_of_Z (2 * n)))
+               | _, _ => PrimFloat.eqb f (PrimFloat.div (float_of_Z fin) (float_of_Z 2))
+               end
+           | _ => false
+           end
+  | 2%nat => match obs_key o with
+             | Some ok => ozeqb ok (ref_min (map code_key codes)) | None => false end
+  | _ => match obs_key o with
+         | Some ok => ozeqb ok (ref_max (map code_key codes)) | None => false end
+  end.
+
+(* (a) lifted == unlifted on every split and (b) every tree == the fold, on the observed outputs
+   themselves: all outcomes of a row are the same (class equal; finite values equal, for Min/Max
+   including the sign of zero) *)
+Definition f_same (row : nat) (o1 o2 : J) : bool :=
+  match row with
+  | 0%nat | 1%nat =>
+      match o1, o2 with
+      | JS a, JS b => String.eqb a b
+      | JF a, JF b => PrimFloat.eqb a b
+      | _, _ => false
+      end
+  | _ => match obs_key o1, obs_key o2 with
+         | Some a, Some b => ozeqb a b
+         | _, _ => false
+         end
+  end.
+Definition run_out (r : J) : J := match r with JL [_; o] => o | _ => JN end.
+Definition f_all_same (row : nat) (runs : list J) : bool :=
+  match runs with
+  | [] => true
+  | r :: rest => forallb (fun r' => f_same row (run_out r) (run_out r')) rest
+  end.
+
+Fixpoint f_all_agree (row : nat) (o : J) (n : nat) (ts : list (mtree Z))
+  : option (bool * list (mtree Z)) :=
+  match n with
+  | O => Some (true, ts)
+  | S n' => match ts with
+            | [] => None
+            | t :: r => match f_all_agree row o n' r with
+                        | Some (b, rest) => Some (f_agree row t o && b, rest)
+                        | None => None
+                        end
+            end
+  end.
+Fixpoint f_judge_row (row : nat) (codes : list Z) (runs : list J) (ts : list (mtree Z))
+  : option (bool * bool) :=
+  match runs with
+  | [] => match ts with [] => Some (true, true) | _ => None end
+  | JL [JI cnt; o] :: runs' =>
+      if cnt <=? 0 then None else
+      match f_all_agree row o (Z.to_nat cnt) ts with
+      | Some (a, rest) =>
+          match f_judge_row row codes runs' rest with
+          | Some (a', p') => Some (a && a', f_prop row codes o && p')
+          | None => None
+          end
+      | None => None
+      end
+  | _ => None
+  end.
+Fixpoint f_judge_rows (row : nat) (codes : list Z) (ts : list (mtree Z)) (rows : list J)
+  : option (bool * bool) :=
+  match rows with
+  | [] => if (row =? 4)%nat then Some (true, true) else None
+  | JL runs :: rows' =>
+      match f_judge_row row codes runs ts, f_judge_rows (S row) codes ts rows' with
+      | Some (a, p), Some (a', p') => Some (a && a', p && f_all_same row runs && p')
+      | _, _ => None
+      end
+  | _ => None
+  end.
+Definition code_ok (c : Z) : bool := ((100 <=? c) && (c <=? 103)) || ((-1000 <? c) && (c <? 100)).
+
 Definition is_pow2 (d : Z) : bool := existsb (Z.eqb d) [1; 2; 4; 8; 16].
 
 Definition check_C06 (kind : string) (input output : J) : verdict :=
@@ -342,6 +527,21 @@ Definition check_C06 (kind : string) (input output : J) : verdict :=
             if negb (is_pow2 den) || (maxparts <? 1) then malformed else
             let ts := all_trees (Z.to_nat maxparts) vs in
             match judge_rows den vs ts (sweep_configs (length vs)) rows with
+            | Some (a, p) => ok_verdict a p
+            | None => malformed
+            end
+        | None => malformed
+        end
+    | _, _ => malformed
+    end
+  else if String.eqb kind "fsweep" then
+    (* in = [codes, maxparts]; out = 4 RLE rows: AverageF64, Sum<f64>, Min<OrdF64>, Max<OrdF64> *)
+    match input, output with
+    | JL [jvs; JI maxparts], JL rows =>
+        match jints jvs with
+        | Some codes =>
+            if negb (forallb code_ok codes) || (maxparts <? 1) then malformed else
+            match f_judge_rows 0 codes (all_trees (Z.to_nat maxparts) codes) rows with
             | Some (a, p) => ok_verdict a p
             | None => malformed
             end
